@@ -17,15 +17,21 @@ WORDS = [0, 1, 0x7fffffff, 0x80000000, 0xffffffff, 0x00000080, 0x0000ff00, 0x800
 # ------------------------------------------------------------------------ helpers around the tool
 
 class _CapSock:
-    def __init__(self, data=b''):
+    def __init__(self, data=b'', seg=0):
         self.sent = b''
         self.data = bytearray(data)
+        self.seg = seg
 
     def send(self, d):
         self.sent += bytes(d)
         return len(d)
 
     def recv(self, n):
+        if self.seg:
+            n = min(n, self.seg)
+        if not self.data:
+            import socket
+            raise socket.timeout('timed out')
         d = bytes(self.data[:n])
         del self.data[:n]
         return d
@@ -40,11 +46,11 @@ class _CapSock:
         pass
 
 
-def _tool_socket(data=b''):
+def _tool_socket(data=b'', seg=0):
     from ssh_audit.ssh_socket import SSH_Socket
     from ssh_audit.outputbuffer import OutputBuffer
     s = SSH_Socket(OutputBuffer(), 'h', 22)
-    cap = _CapSock(data)
+    cap = _CapSock(data, seg)
     s._SSH_Socket__sock = cap
     return s, cap
 
@@ -200,6 +206,29 @@ def _eval_case(case):
                     fails.append(['frame-readback-leftover', 'payload length %d: %d unread' % (n, s2.unread_len)])
             except SystemExit:
                 fails.append(['frame-readback-rejected', 'payload length %d' % n])
+    elif k == 'frame_seq':
+        # several packets back to back, delivered in segments: each must be read back unchanged
+        lens, seg = case['lens'], case['seg']
+        payloads = [bytes((31 + 7 * j + i) & 0xff for i in range(n)) for j, n in enumerate(lens)]
+        s, cap = _tool_socket()
+        for pl in payloads:
+            s.write(pl)
+            s.send_packet()
+        stream = cap.sent
+        raws, left = wire.split_packets(stream)
+        nt = len(lens) > 1
+        if left or [wire.check_packet_framing(r)[0] for r in raws] != payloads:
+            fails.append(['frame-seq-reference-decoder', 'lens %r' % lens])
+        s2, _ = _tool_socket(stream, seg)
+        for j, pl in enumerate(payloads):
+            try:
+                t, body = s2.read_packet(2)
+            except SystemExit:
+                fails.append(['frame-seq-readback-rejected', 'lens %r seg %d: packet %d' % (lens, seg, j)])
+                break
+            if t != pl[0] or body != pl[1:]:
+                fails.append(['frame-seq-readback', 'lens %r seg %d: packet %d read back as type %r, %d bytes' % (lens, seg, j, t, len(body) if isinstance(body, bytes) else -1)])
+                break
     elif k == 'frame_ref':
         # packets from the reference encoder (every legal padding) must be read back by the tool
         n, pad = case['len'], case['pad']
@@ -314,6 +343,9 @@ def run(ctx):
             if 2 ** k + d >= 0:
                 cases.append({'kind': 'mpint1', 'n': str(2 ** k + d)})
     cases += [{'kind': 'frame', 'len': n, 'fill': n * 7} for n in range(0, 4097)]
+    for seg in (0, 1, 2, 5, 7, 8, 13, 64, 2048):
+        for a in list(range(1, 70)) + [2036, 2040, 2041, 2043, 2047, 2048, 4088, 4091]:
+            cases.append({'kind': 'frame_seq', 'lens': [a, (a * 7) % 61 + 1, 5], 'seg': seg})
     cases += [{'kind': 'frame_ref', 'len': n, 'pad': p, 'fill': n} for n in range(1, 300 if q else 1200) for p in range(0, 4)]
     ctx.map(cases, chunk=2000)
     f = 1 if q else 15
